@@ -477,29 +477,8 @@ def rule_settings(P) -> RuleResult:
     ds = sh.classes['DispatchingShell'].methods.get('do_set') if 'DispatchingShell' in sh.classes else None
     if ds is None:
         raise AnalysisError('anchor vanished: DispatchingShell.do_set')
-    guard = None
-    for n in ast.walk(ds.node):
-        if isinstance(n, ast.If) and re.fullmatch(r'name not in self\.settings', unparse(n.test)):
-            guard = n
-    uses = [n for n in ast.walk(ds.node) if isinstance(n, ast.Call) and unparse(n.func) in ('self.settings.getstr', 'self.settings.setstr')
-            and n.args and unparse(n.args[0]) == 'name']
-    safe_loops = [n for n in ast.walk(ds.node) if isinstance(n, ast.For) and unparse(n.iter) == 'self.settings']
-    uses = [u for u in uses if not any(any(u is x for x in ast.walk(lp)) for lp in safe_loops)]   # names taken from the settings themselves
-    in_else = set()
-    if guard is not None:
-        for st_ in guard.orelse:
-            in_else.update(id(x) for x in ast.walk(st_))
-    if guard is None or not uses or not all(id(u) in in_else for u in uses):
-        res.fail(ds.fq, 'settings:name-check', '.set must check the name against the settings fields before getattr(): method names like '
-                 '`todict` resolve to bound methods and the command fails with TypeError instead of "variable does not exist"', loc(ds))
-    else:
-        res.ok({'method': ds.fq, 'name_validated': True})
-    # no-argument form lists all fields; errors reported for invalid value / arity
-    src = unparse(ds.node)
-    for needle, what in (('for name in self.settings', 'lists all settings'), ('except ValueError', 'reports invalid values'),
-                         ("'invalid number of arguments'", 'rejects extra arguments')):
-        if needle not in src:
-            res.fail(ds.fq, f'settings:{what.split()[0]}', f'.set no longer {what}', loc(ds))
+    from .sx_compiler import set_name_cases
+    set_name_cases(P, res)
     # (e) every setting is consumed: keyword of a renderer, or read explicitly
     consumed = set()
     for mod in ('beanquery.query_render',):
